@@ -462,3 +462,18 @@ func C13_UpdateBinding() { focus = "C13"; sceneBindingMsg(opUpdBinding, bmPlain)
 
 // C19: "can be written as JSON and read back": the enum fields of a context through the application's codec
 func C19_EnumProtoJSON() { focus = "C19"; sceneEnumProtoJSON() }
+
+// C02 / C13: earnings leave the escrow once (a paid record is reset); pending fees go back once at zero-height
+func C02_Withdraw() { focus = "C02"; sceneWithdraw(wdQuick) }
+func C02_Genesis()  { focus = "C02"; sceneGenesis(gnQuick) }
+func C13_Genesis()  { focus = "C13"; sceneGenesis(gnQuick) }
+
+// round 6
+func C07_ModuleCall() { focus = "C07"; sceneModuleCall() }
+func C05_ModuleCall() { focus = "C05"; sceneModuleCall() }
+func C07_Expiry()     { focus = "C07"; o := exOne; o.Vol = true; sceneExpiry(o) }
+func C10_Genesis()    { focus = "C10"; sceneGenesis(gnQuick) }
+func C12_RespondAnyState() {
+	focus = "C12"
+	sceneRespond(ReqOpts{MaxProv: 1, OnlyState: -1, Module: true, ModuleOnly: true, NoSlash: true})
+}
